@@ -4,10 +4,13 @@
 package c11
 
 import (
+	"encoding/json"
 	"fmt"
 	"strings"
 	"testing"
 
+	"github.com/go-openapi/spec"
+	"github.com/go-openapi/validate"
 	"pgregory.net/rapid"
 
 	"verif/internal/ev"
@@ -30,8 +33,11 @@ func TestMain(m *testing.M) {
 }
 
 type Call struct {
-	S int `json:"s"`
-	I int `json:"i"`
+	// K is "" for AgainstSchema(schema S, instance I), "param" / "header" for a one-shot recycling
+	// parameter / header validator on the case's simple definition (S unused) and value I of Values
+	K string `json:"k,omitempty"`
+	S int    `json:"s"`
+	I int    `json:"i"`
 }
 
 type Case struct {
@@ -40,6 +46,9 @@ type Case struct {
 	Workload  []Call   `json:"workload"`
 	Probes    []Call   `json:"probes"`
 	Scribble  string   `json:"scribble"` // off | zero | poison
+	// Simple is an array-typed simple schema (items carry a format of the fuse registry), used as a parameter and as a header
+	Simple string   `json:"simple,omitempty"`
+	Values []string `json:"values,omitempty"`
 }
 
 var formats = []string{"evenlen", "starts-a", "always", "upper-case", "never"}
@@ -128,17 +137,49 @@ func genCase(t *rapid.T) Case {
 		}
 		c.Instances = append(c.Instances, gen.Text(v))
 	}
+	// an array parameter / header whose items (possibly items of items) are formatted strings
+	items := map[string]any{"type": "string", "format": rapid.SampledFrom(formats).Draw(t, "simpleformat")}
+	if rapid.Bool().Draw(t, "nesteditems") {
+		items = map[string]any{"type": "array", "items": items}
+	}
+	c.Simple = gen.Text(map[string]any{"type": "array", "items": items})
+	nv := rapid.IntRange(2, 4).Draw(t, "nvalues")
+	for i := 0; i < nv; i++ {
+		n := rapid.IntRange(0, 3).Draw(t, "valuelen")
+		var arr []any
+		for j := 0; j < n; j++ {
+			var el any = rapid.SampledFrom([]string{"a", "ab", "abc", "B", ""}).Draw(t, "valueel")
+			if items["type"] == "array" {
+				el = []any{el, rapid.SampledFrom([]string{"a", "xy"}).Draw(t, "valueel2")}
+			}
+			arr = append(arr, el)
+		}
+		if arr == nil {
+			arr = []any{}
+		}
+		c.Values = append(c.Values, gen.Text(arr))
+	}
 	nw := rapid.IntRange(3, 12).Draw(t, "nwork")
 	for i := 0; i < nw; i++ {
-		c.Workload = append(c.Workload, Call{rapid.IntRange(0, ns-1).Draw(t, "ws"), rapid.IntRange(0, ni-1).Draw(t, "wi")})
+		switch rapid.IntRange(0, 5).Draw(t, "callkind") {
+		case 0:
+			c.Workload = append(c.Workload, Call{K: "param", I: rapid.IntRange(0, nv-1).Draw(t, "pv")})
+		case 1:
+			c.Workload = append(c.Workload, Call{K: "header", I: rapid.IntRange(0, nv-1).Draw(t, "hv")})
+		default:
+			c.Workload = append(c.Workload, Call{S: rapid.IntRange(0, ns-1).Draw(t, "ws"), I: rapid.IntRange(0, ni-1).Draw(t, "wi")})
+		}
 	}
 	// probes: every pair twice, in a generated order
 	var pairs []Call
 	for r := 0; r < 2; r++ {
 		for s := 0; s < ns; s++ {
 			for i := 0; i < ni; i++ {
-				pairs = append(pairs, Call{s, i})
+				pairs = append(pairs, Call{S: s, I: i})
 			}
+		}
+		for i := 0; i < nv; i++ {
+			pairs = append(pairs, Call{K: "param", I: i}, Call{K: "header", I: i})
 		}
 	}
 	perm := rapid.Permutation(pairs).Draw(t, "probeorder")
@@ -178,6 +219,29 @@ func check(c Case) (out ev.Outcome) {
 		}
 	}
 	run := func(cl Call) obs.Outcome {
+		if cl.K != "" {
+			v, err := obs.DecodeStd(c.Values[cl.I])
+			if err != nil {
+				return obs.Outcome{Panic: "harness: value does not decode"}
+			}
+			var out obs.Outcome
+			msg, st := obs.Guard(func() {
+				if cl.K == "param" {
+					p := new(spec.Parameter)
+					_ = json.Unmarshal([]byte(c.Simple), p)
+					p.Name, p.In = "p", "query"
+					out = obs.FromResult(validate.NewParamValidator(p, registry, validate.WithRecycleValidators(true)).Validate(v))
+					return
+				}
+				h := new(spec.Header)
+				_ = json.Unmarshal([]byte(c.Simple), h)
+				out = obs.FromResult(validate.NewHeaderValidator("X-H", h, registry, validate.WithRecycleValidators(true)).Validate(v))
+			})
+			if msg != "" {
+				return obs.Outcome{Panic: msg, Stack: st}
+			}
+			return out
+		}
 		data, err := obs.DecodeStd(c.Instances[cl.I])
 		if err != nil {
 			return obs.Outcome{Panic: "harness: instance does not decode"}
@@ -185,6 +249,9 @@ func check(c Case) (out ev.Outcome) {
 		return obs.Against(c.Schemas[cl.S], data, registry)
 	}
 	valid := func(cl Call) bool {
+		if cl.K != "" {
+			return c.Simple != "" && cl.I >= 0 && cl.I < len(c.Values)
+		}
 		return cl.S >= 0 && cl.S < len(c.Schemas) && cl.I >= 0 && cl.I < len(c.Instances)
 	}
 	// 1. every pair alone, from reset pools, no fault
@@ -194,13 +261,29 @@ func check(c Case) (out ev.Outcome) {
 			hook.SetRedeemHook(nil)
 			hook.ResetPools()
 			f.at = 0
-			o := run(Call{s, i})
+			o := run(Call{S: s, I: i})
 			if o.Panic != "" && !strings.HasPrefix(o.Panic, "Invalid schema provided to SchemaValidator") {
 				out.Excluded = append(out.Excluded, "a pair panics without any injected fault (a C06 matter)")
 				hook.ResetPools()
 				return out
 			}
-			alone[Call{s, i}] = o
+			alone[Call{S: s, I: i}] = o
+		}
+	}
+	if c.Simple != "" {
+		for i := range c.Values {
+			for _, k := range []string{"param", "header"} {
+				hook.SetRedeemHook(nil)
+				hook.ResetPools()
+				f.at = 0
+				o := run(Call{K: k, I: i})
+				if o.Panic != "" {
+					out.Excluded = append(out.Excluded, "a parameter/header value panics without any injected fault (a C16 matter)")
+					hook.ResetPools()
+					return out
+				}
+				alone[Call{K: k, I: i}] = o
+			}
 		}
 	}
 	// 2. fault-free run of the workload to count checker invocations
